@@ -91,6 +91,8 @@ pub enum COp {
   Iter { batch: u8 },
   /// sync iteration that advances the virtual clock by `ns` after `after` items
   IterStep { batch: u8, after: u8, ns: u64 },
+  /// sync iteration during which the iterating thread itself invalidates `ks` after `after` items
+  IterRemove { batch: u8, after: u8, ks: Vec<u8> },
   IterSnapshot,
   /// to_snapshot(), read back through its serialised form
   Snapshot,
@@ -561,6 +563,27 @@ fn run_client(idx: usize, cl: &Client, cache: &SCache, acache: &ACache) {
           if out.len() == *after as usize {
             fibre_verif_rt::time::advance_ns(*ns);
             ctx::fault_fired(FaultKind::ClockJump);
+          }
+        }
+        out.sort();
+        Res::Many(out)
+      }
+      COp::IterRemove { batch, after, ks } => {
+        let mut out: Vec<(u8, u32, u32)> = vec![];
+        let mut done = false;
+        for (k, val) in cache.iter_with_batch_size((*batch).max(1) as usize) {
+          out.push((k, val.id, val.ctr));
+          drop(val);
+          if out.len() == *after as usize && !done {
+            done = true;
+            for k in ks {
+              cache.invalidate(k);
+            }
+          }
+        }
+        if !done {
+          for k in ks {
+            cache.invalidate(k);
           }
         }
         out.sort();
